@@ -81,6 +81,7 @@ def outO : Outcome → Json
 def leafInt : Val → Option Val
   | .int i => some (.int i)
   | .str s => s.toInt?.map .int
+  | .none => some (.int 0)
   | _ => none
 
 def handle (j : Json) : Json :=
